@@ -64,6 +64,11 @@ THEOREMS = {
     "C16": (["BS.Props.C16"], [("BS.Props.C16", "BS.Props.C16.pushData_appends"),
                                 ("BS.Props.C16", "BS.Props.C16.pushData_error_no_state"),
                                 ("BS.Props.C16", "BS.Props.C16.cacheProcess_appends")]),
+    "C08": (["BS.Props.C08"], [("BS.Props.C08", "BS.Props.C08.caches_exact_in_one_session"),
+                                ("BS.Props.C08", "BS.Props.C08.cache_created_over_existing_data"),
+                                ("BS.Props.C08", "BS.Props.C08.appending_keeps_caches_exact"),
+                                ("BS.Props.C08", "BS.Props.C08.bucketMeans_length"),
+                                ("BS.Props.C08", "BS.Props.C08.bucketMeans_get")]),
     "C18": (["BS.Props.C18"], [("BS.Props.C18", "BS.Props.C18.no_consent_is_error"),
                                 ("BS.Props.C18", "BS.Props.C18.skipping_drops"),
                                 ("BS.Props.C18", "BS.Props.C18.consent_resumes_at_next_section")]),
@@ -168,7 +173,7 @@ LEVEL_TEXT = {
  "C05": "Kernel-checked on the model: data region cut at ANY byte length x index file in ANY legitimate prior state (absent, cut at any byte, lagging, ahead, shorter than its header): Data::open_existing succeeds and yields the canonical files and exact in-memory state of the completely written prefix (open_recovers_written_prefix, repair_yields_written_prefix; unconditional for payload >= 4). For payload < 4 the hypothesis TailClean is needed \u2014 proved necessary by tailClean_needed_counterexample and recorded as known finding marker-tail. Differential: cut-point enumeration x index states incl. stale .part, large files, crash-repair-append chains.",
  "C06": "Kernel-checked on the model: the incrementally maintained index (file bytes and entries) is exactly the section list of the data after every accepted append; an index rebuilt from the data is identical to it for every file length and chunk size; no legitimate prior state of the index file influences the result of an open (incremental_index_exact, rebuild_equals_incremental, rebuilt_file_bytes, prior_index_state_irrelevant, chunk_size_irrelevant). Differential incl. the window-sweep battery for the backwards last-timestamp search.",
  "C07": "Kernel-checked: the independent reference decoder of Spec.lean (knows only the documented layout, shares no definition with the model) decodes every canonical data region to exactly what was appended; meta::write is byte-for-byte the documented section layout and meta::read inverts it for all five layouts; the library's reader reads every canonical region (reference_decoder_reads_canonical, section_layout_is_documented, section_roundtrip, reader_reads_canonical). The outer/inner header text (T10) is differential only: every file the library writes is compared byte-for-byte with the Lean spec encoder's file.",
- "C08": "Partly kernel-checked: the bucket accumulator of the resampling processor emits exactly the bucket means without overflow (C10's sampler theorem, same arithmetic as DownSampledData::process), push_data keeps a cache file canonical (T2), the reader feeding a cache created over existing data is exact (T1/T3). The cache invariant across process/create (T13) is NOT proved; that every cache file equals header ++ encode(bucketMeans B history) for every level is carried by the differential check (caches attached at creation, created on first open, large magnitudes, sources spanning buffers).",
+ "C08": "Kernel-checked at full strength on the model, for the harness's integer resampler: create a series with any payload size, header and any cache configuration (distinct bucket sizes 1 <= B <= 2^32), make ANY sequence of append attempts with timestamps < 2^64: no panic, and for EVERY level the cache data file is byte for byte header ++ encode(bucketMeans B history) and its index canonical (caches_exact_in_one_session, via the invariant cacheProcess_inv lifted to all reachable states by pushAll_inv); a cache created over pre-existing data of any length holds exactly the bucket means with the trailing bucket only in the accumulator (cache_created_over_existing_data), and further appends keep it exact (appending_keeps_caches_exact); bucketMeans is characterised entry by entry (bucketMeans_get/_length). Sums are u128/u64 as in the code: no overflow is part of the theorem. The generic ResampleState contract of other resamplers is an assumption.",
  "C09": "Differential only for the cache-specific part (reopen at every fill level for B in {1,2,3,4,10}, cache torn at sampled bytes, deleted, source torn with the cache ahead), compared byte-for-byte with the spec's cache file; kernel-checked support: the open of a cache's own data/index files is the same Data::open_existing as C04/C05, and the replay reader is T1/T3. The cache catch-up invariant (T13) is not proved.",
  "C10": "Kernel-checked on the model: read_n without caches, for EVERY pair of bounds and n >= 1 (files up to 2^32 lines): uniform bucket means with one bucket size b >= 1 of exactly the lines a full read of the range returns, at most 2n of them, no overflow (read_n_of_any_range, sampler_is_bucket_means, at_most_2n). The resampler is the harness's integer resampler over the library's own u64 ResampleState; the generic resampler contract is an assumption.",
  "C11": "Kernel-checked: estimate_lines cannot fault and its unreachable! arm is unreachable for any index contents (estimate_total, unreachable_arm); the read tail after level selection is C10's. That the selected level is one of the stored levels is by construction of read_n; transparency w.r.t. the decoded cache content, strictly increasing in-bounds timestamps and <= 2n are checked differentially against every stored level (judge ~readnc), incl. caches longer in bytes than finer ones.",
